@@ -1,6 +1,6 @@
 """C15 - connection lifecycle hooks fire once, in order, on every exit path (WebSocket server)."""
 from analysis.flow import must_cross, return_points, term_pt, path_counts, in_cycle, yields, definitely_init, init_at_point, trace_op
-from analysis.guards import facts_at, field_writes, struct_constructions, _mentions_field
+from analysis.guards import facts_at, _variants_for_discr, field_writes, struct_constructions, _mentions_field
 from analysis.mir import callee_matches, op_place, rv_operands
 from analysis.sym import Sym, render, is_call, const_val, walk
 from rules.common import texts, value_rows, render_n, ok_fact
@@ -21,7 +21,8 @@ EXPLANATION = (
     "connect-hook call, so a panicking hook still tears down. (hooks-before-reader) all connect-hook call sites dominate the "
     "reader_task call and the hook's sink, the reader's response path and the writer's receiver are the two ends of one mpsc "
     "channel. (cancel-before-hooks) in Drop the token is cancelled before the hook loop and the reader's handlers get clones "
-    "of that same token. (drain-shape) graceful drain cancels the parent token before joining, the deadline arm shuts the "
+    "of that same token. (end-signal-ends-reader) in reader_task no path from an end-of-stream, transport-error or Close-frame "
+    "edge reaches StreamExt::next again, and decode_request_payload maps WsMessage::Close to FramePayload::Close. (drain-shape) graceful drain cancels the parent token before joining, the deadline arm shuts the "
     "JoinSet down, and the writer task is held through AbortOnDrop whose Drop aborts. Not decided: enumeration of exit cause x "
     "phase x connection count; RAII makes the guarantee independent of the exit path."
 )
@@ -160,6 +161,8 @@ def run(facts, R):
             "hooks and the registry removal never run" % ("awaited directly" if direct else "not an arm of a select! with the connection token's cancelled() (token %s vs %s)" % (tok, conn_tok)),
             hc.span, "select!{ reader_task(..), conn_token.cancelled() }")
 
+    end_signal_rule(facts, R)
+
     # ---------------- registry-pairing / hooks-before-reader -------------------------------------------------------
     hooks = [(i, t) for i, t in hc.calls() if t["callee"]["name"] == "call" and "on_connect" in render(s.op(t["args"][0]))]
     R.floor("hooks-before-reader", len(hooks), 2, "connect-hook call sites")
@@ -240,6 +243,59 @@ def run(facts, R):
     R.check(okao, "drain-shape", hc.path, "writer held through AbortOnDrop", "AbortOnDrop constructions: %s" % [b.path for b, _, _, _ in ao], hc.span)
     ad = facts.body("<websocket_server::AbortOnDrop<T> as std::ops::Drop>::drop")
     R.check(any(t["callee"]["name"] == "abort" for i, t in ad.calls()), "drain-shape", ad.path, "Drop aborts the task", "AbortOnDrop::drop does not abort", ad.span)
+
+
+def end_signal_rule(facts, R):
+    """(end-signal-ends-reader) the disconnect guard's scope ends when reader_task returns; so every signal that the peer is
+    finished - end of stream, transport error, a Close frame - must leave the read loop instead of polling the socket again."""
+    rb = facts.body(WS + "reader_task::{closure#0}")
+    rs = Sym(rb)
+    reads = [term_pt(rb, i) for i, t in rb.calls() if t["callee"]["name"] == "next" and "StreamExt" in t["callee"]["path"]]
+    R.floor("end-signal-ends-reader", len(reads), 1, "frame reads in reader_task")
+    ends, kinds = [], set()
+    # edge level: the successor a switch takes for the end variant, also when that successor is shared with another arm
+    for x in sorted(rb.live_blocks()):
+        t = rb.term(x)
+        if t["k"] != "switch":
+            continue
+        e = rs.op(t["on"])
+        if e[0] != "discr":
+            continue
+        vm = _variants_for_discr(rb, facts, t, x)
+        if not vm:
+            continue
+        names = [c[1].rsplit("::", 1)[-1] for c in walk(e[1]) if c[0] == "call"]
+        if "decode_request_payload" in names:
+            wanted = {"Close": ("decode", "Close")}
+            if not any(n == "branch" for n in names):
+                wanted = {}
+        elif "next" in names and set(names) <= {"next", "poll", "get_context", "new_unchecked", "into_future"}:
+            wanted = {"None": ("read", "None"), "Err": ("read", "Err"), "Close": ("decode", "Close")}
+        else:
+            continue
+        listed = {vm.get(v, str(v)): tb for v, tb in t["targets"]}
+        for name, kind in wanted.items():
+            if name not in vm.values():
+                continue
+            tb = listed.get(name, t.get("otherwise"))
+            if tb is None or rb.term(tb)["k"] == "unreachable" and not rb.blocks[tb]["stmts"]:
+                continue
+            kinds.add(kind)
+            ends.append((tb, 0))
+    R.floor("end-signal-ends-reader", len(kinds & {("read", "None"), ("decode", "Close")}), 2,
+            "mandatory end signals (end of stream, Close frame) recognised in reader_task")
+    w = must_cross(rb, ends, reads, [], after_start=False)
+    R.check(w is None, "end-signal-ends-reader", rb.path, "no further read after an end signal",
+            "after end of stream / a transport error / a peer Close frame the reader polls the socket again (blocks %s): reader_task does not return, the "
+            "DisconnectGuard stays alive and the disconnect hooks, registry removal and handler cancellation wait on a peer that has already closed" % w,
+            rb.span, "end edges %s never reach StreamExt::next again" % sorted(kinds), path=w)
+    if WS + "decode_request_payload" not in facts.bodies:
+        return
+    db = facts.body(WS + "decode_request_payload")
+    rows = value_rows(db, Sym(db), facts, 0)
+    close_rows = [(g, v) for g, v in rows if any(" is " in x and "Close" in x.split(" is ", 1)[1] for x in g)]
+    R.check(bool(close_rows) and all("FramePayload::Close" in v for g, v in close_rows), "end-signal-ends-reader", db.path, "a Close frame decodes to FramePayload::Close",
+            "decode_request_payload maps a peer Close frame to %s" % [v[:60] for g, v in close_rows], db.span, "Close -> FramePayload::Close")
 
 
 def _loop_head_dominates(b, hook_bb, reader_bb):
